@@ -1,82 +1,27 @@
 --------------------------------- MODULE Pull ---------------------------------
-(* C03 -- PullModel (server/images.go, server/download.go) against a registry    *)
-(* and a CDN that misbehave.  One behaviour = a sequence of pull attempts for    *)
-(* the same name; in every attempt some requests are answered with a fault.      *)
-(* The published model has three blobs (1 = model layer, 2 = system layer,       *)
-(* 3 = config), each downloaded as one part of two units.                        *)
-(*                                                                              *)
-(* Store state: final[b] in {absent, good, bad}, part[b] = units already in the  *)
-(* partial file (0..2) and whether they are good, man in {absent, old, new}.     *)
-(* An attempt follows PullModel: manifest; for every blob in order: cache hit    *)
-(* (final exists -> no download and NO verification), else HEAD, redirect,       *)
-(* chunk requests (a failed chunk is retried inside the attempt), rename;        *)
-(* then verification of the blobs downloaded in this attempt (mismatch -> the    *)
-(* file is removed and the attempt fails); manifest written last; old layers     *)
-(* pruned afterwards.                                                            *)
-EXTENDS Integers, Sequences, FiniteSets, FiniteSetsExt, TLC, Json
+(* C03 -- the state machine TLC explores over PullCore: a sequence of pull      *)
+(* attempts for the same name, each with a fault script.                         *)
+EXTENDS PullCore
 
 CONSTANTS MaxAttempts, MaxFaults, Pre     \* Pre: "none" | "old" (an older version of the model is installed)
-
-Blobs == 1..3
-ManifestFaults == {"503", "404", "401-empty-realm", "401-no-quotes", "401-garbage", "empty-digest"}
-HeadFaults == {"503"}
-RedirectFaults == {"503", "same-host"}
-ChunkFaults == {"flip", "trunc1", "reset", "503short", "503long", "range-ignored"}
-\* request slots of one attempt: manifest, per blob: head, redirect, first and second chunk request
-Slots == {<<"m", 0>>} \cup {<<c, b>> : c \in {"h", "r", "ca", "cb"}, b \in Blobs}
-FaultsOf(s) == CASE s[1] = "m" -> ManifestFaults [] s[1] = "h" -> HeadFaults [] s[1] = "r" -> RedirectFaults
-                 [] OTHER -> ChunkFaults
 Pairs == UNION {{<<s, x>> : x \in FaultsOf(s)} : s \in Slots}
 FaultSets == {F \in UNION {kSubset(k, Pairs) : k \in 0..MaxFaults} : \A p, q \in F : p[1] = q[1] => p = q}
 Script(F) == [s \in Slots |-> IF \E p \in F : p[1] = s THEN (CHOOSE p \in F : p[1] = s)[2] ELSE "ok"]
 Scripts == {Script(F) : F \in FaultSets}
 
+
 VARIABLES final, part, man, attempts, outcomes, hist
 vars == <<final, part, man, attempts, outcomes, hist>>
-NoPart == [done |-> 0, good |-> TRUE]
 Init == /\ final = [b \in Blobs |-> "absent"] /\ part = [b \in Blobs |-> NoPart]
-        /\ man = IF Pre = "old" THEN "old" ELSE "absent"
+        /\ man = (IF Pre = "old" THEN "old" ELSE "absent")
         /\ attempts = 0 /\ outcomes = <<>> /\ hist = <<>>
-
-\* what one chunk request does to a partial file: <<units done, all good?, finished the part?>>
-Chunk(p, f) ==
-  CASE f = "ok"            -> [done |-> 2, good |-> p.good]
-    [] f = "flip"          -> [done |-> 2, good |-> FALSE]
-    [] f = "503long"       -> [done |-> 2, good |-> FALSE]                 \* the status of a chunk response is not looked at
-    [] f = "range-ignored" -> [done |-> 2, good |-> p.good /\ p.done = 0] \* the whole body from byte 0: wrong when resuming
-    [] f = "trunc1"        -> [done |-> IF p.done = 0 THEN 1 ELSE p.done, good |-> p.good]   \* progress kept, retried
-    [] f \in {"reset", "503short"} -> p                                     \* nothing kept, retried
-
-\* download of blob b under script f: the part after the first request, the retry, and further clean retries
-Downloaded(p, f, b) ==
-  LET p1 == Chunk(p, f[<<"ca", b>>])
-      p2 == IF p1.done = 2 THEN p1 ELSE Chunk(p1, f[<<"cb", b>>])
-  IN IF p2.done = 2 THEN p2 ELSE Chunk(p2, "ok")
-
-\* one attempt, blob by blob: st = [final, part, fetched (blobs downloaded in this attempt), failed]
-RECURSIVE Fetch(_, _, _)
-Fetch(st, f, b) ==
-  IF b > 3 \/ st.failed THEN st
-  ELSE IF st.final[b] # "absent" THEN Fetch(st, f, b + 1)                          \* cache hit
-  ELSE IF f[<<"h", b>>] # "ok" /\ st.part[b].done = 0 /\ st.part[b] = NoPart THEN [st EXCEPT !.failed = TRUE]   \* HEAD only without part files
-  ELSE IF f[<<"r", b>>] # "ok" THEN [st EXCEPT !.failed = TRUE]      \* 5xx, or a blob served without the redirect to another host
-  ELSE LET p == Downloaded(st.part[b], f, b) IN
-       Fetch([st EXCEPT !.final[b] = IF p.good THEN "good" ELSE "bad", !.part[b] = NoPart, !.fetched = @ \cup {b}], f, b + 1)
 
 Attempt(f) ==
   /\ attempts < MaxAttempts
   /\ attempts' = attempts + 1
   /\ hist' = Append(hist, {[slot |-> s[1], b |-> s[2], f |-> f[s]] : s \in {x \in Slots : f[x] # "ok"}})
-  /\ IF f[<<"m", 0>>] # "ok"
-       THEN /\ outcomes' = Append(outcomes, "fail") /\ UNCHANGED <<final, part, man>>
-       ELSE LET st == Fetch([final |-> final, part |-> part, fetched |-> {}, failed |-> FALSE], f, 1)
-                badNew == {b \in st.fetched : st.final[b] = "bad"}
-                \* verification of what was downloaded now: mismatching files are removed
-                fin2 == [b \in Blobs |-> IF b \in badNew THEN "absent" ELSE st.final[b]]
-                ok == ~st.failed /\ badNew = {}
-            IN /\ final' = fin2 /\ part' = st.part
-               /\ man' = IF ok THEN "new" ELSE man
-               /\ outcomes' = Append(outcomes, IF ok THEN "ok" ELSE "fail")
+  /\ LET r == AttemptResult([final |-> final, part |-> part, man |-> man], f) IN
+       /\ final' = r.final /\ part' = r.part /\ man' = r.man /\ outcomes' = Append(outcomes, r.outcome)
 Next == \E f \in Scripts : Attempt(f)
 Spec == Init /\ [][Next]_vars
 
@@ -88,7 +33,6 @@ NoBadBlobLeft == \A b \in Blobs : final[b] # "bad"
 \* the name resolves to the new manifest only when everything it names is right
 NeverDangling == man = "new" => \A b \in Blobs : final[b] = "good"
 \* whatever happened before, an attempt without faults succeeds
-CleanScript == [s \in Slots |-> "ok"]
 RetryCanSucceed ==
   LET st == Fetch([final |-> final, part |-> part, fetched |-> {}, failed |-> FALSE], CleanScript, 1)
   IN ~st.failed /\ \A b \in Blobs : st.final[b] = "good"
